@@ -161,6 +161,10 @@ def c13(tier):
         "nest": lambda k: "+" + "[>+" * k + "]" * k,
         "io-chain": lambda k: ",.+" * k,
         "mul-acc-chain": lambda k: ",>,>,<<" + "[->[->>+>+<<<]>>>[-<<<+>>>]<<<<]>>[-<<+>>]<<" * k + ".",
+        # two results of one round are the factors of the next
+        "two-target-mul-chain": lambda k: ",>,<" + "[->>[-]<[->+>+>+<<<]>[-<+>]<<]>>>" * k + ".",
+        # squarings inside a loop body, each result printed (the written-value bookkeeping must stay bounded)
+        "square-in-loop": lambda k: ",>,<[>>[-]>[-]>[-]<<<" + (SQ + ".") * (k + 10) + "<-]",
     }
     ks = list(range(8, 15)) if tier == "quick" else list(range(8, 19))
     sreqs = []
@@ -183,6 +187,13 @@ def c13(tier):
         fam_events.setdefault(key, []).append({"proc": 0, "ev": "size", "key": key, "digest": "", "exe": "",
                                                "nth": int(k), "size": len(a["text"])})
         table.setdefault(key, []).append(len(a["text"]))
+        # compile time of the member, in ms with a floor of 100 ms: only a run of members that each take
+        # 1.7 times as long as the one before, from 100 ms upwards, is super-polynomial growth
+        tkey = fam + "|time-" + kind
+        ms = max(100, int(a.get("ms", 0)))
+        fam_events.setdefault(tkey, []).append({"proc": 0, "ev": "time", "key": tkey, "digest": "", "exe": "",
+                                                "nth": int(k), "size": ms})
+        table.setdefault(tkey, []).append(ms)
     straces = [{"id": "scale:" + key, "events": evs} for key, evs in fam_events.items()]
     for t in traces:
         for e in t["events"]:
@@ -199,6 +210,7 @@ def c13(tier):
             raise ToolError("no verdict for scaling family " + st["id"])
         if v["verdict"] != "accepted":
             fam, kind = st["id"][6:].split("|")
+            kind = kind.replace("time-", "compile time, ")
             rep.violation({"family": fam, "artifact": kind, "level": 3, "w": 8, "member": families[fam](ks[0]),
                            "k": ks, "tlc": v},
                           "scaling family %s (%s): %s" % (fam, kind, v["why"][:300]))
